@@ -252,7 +252,7 @@ pub fn property() -> Property {
         exh_count,
         exh_case,
         bytes_case: None,
-        quick_cases: 100_000,
+        quick_cases: 300_000,
         thorough_cases: 3_000_000,
         max_tape: 2048,
     }
